@@ -8,7 +8,7 @@ from project import cfg_proj
 
 MODULE = "TraceGrammar"
 FAMILIES = [("Sat3", "any"), ("Sat3", "any"), ("Rat", "acyclic"), ("Bool", "any"), ("Sat2", "any"), ("RatU", "acyclic"),
-            ("MaxTimes", "acyclic")]
+            ("MaxTimes", "acyclic"), ("Sat3", "chord")]
 
 
 def generate(rng, tier, shard, nshards):
